@@ -92,6 +92,42 @@ CHECKS["C18"] = dict(
     technique="Lean 4 proof over Go->Lean regenerated assignments (decide over the field table + lifting lemma) + glue model with the primitive as parameter + differential correspondence",
     design="5/C18", engine="config")
 
+SESSION_TIE = ("The model (Model/Session.lean: setDest, destination cache and eviction, submit path with fallback, crediting, "
+               "notification relay, re-announcement) is compared op by op with a real Proxy (Connect+Run, SetDest) running between a "
+               "fake miner and fake pools under virtual time, and a monitor re-judges the implementation's own trace against the "
+               "specification reconstructed from what the pools and the miner did.")
+
+CHECKS["C02"] = dict(
+    text="Kernel-checked per-event theorems over the session model, for every session state (so every history of switches, "
+         "notifications and submits) and every proof-of-work oracle: a submit is forwarded to at most one pool connection and "
+         "answered by exactly one reply with its id; the reply says accepted iff the active destination's job memory accepts the "
+         "share or (job unknown / too low there) a cached destination's does; an accepted share goes to a destination that knows "
+         "the job and whose job memory accepted it; the forwarded share carries the user name authorised on that connection. "
+         + SESSION_TIE,
+    technique="Lean 4 per-event theorems over a session model + differential correspondence with the real Proxy under synctest virtual time + trace monitor",
+    design="5/C02", engine="proxy")
+
+CHECKS["C03"] = dict(
+    text="Kernel-checked per-event theorems over the session model: whatever a parked destination sends writes nothing to the "
+         "miner; each notification of the active destination reaches the miner as exactly one unaltered message; a job is recorded "
+         "with the difficulty and extranonce in force at its arrival and later changes do not touch it; a successful switch writes "
+         "to the miner exactly version mask, extranonce, difficulty, clean-jobs notify of the new destination's latest job, followed "
+         "by the destination's current extranonce / difficulty exactly when they differ from the job's; a switch to the current "
+         "destination and a failed switch write nothing to the miner. " + SESSION_TIE +
+         " The monitor checks at every job notification that the values last delivered to the miner are the issuing pool's.",
+    technique="Lean 4 per-event theorems over a session model + differential correspondence with the real Proxy under synctest virtual time + trace monitor",
+    design="5/C03", engine="proxy")
+
+CHECKS["C04"] = dict(
+    text="Kernel-checked per-event theorems over the session model: an accepted share adds the credited difficulty exactly once "
+         "to the miner total and once to the worker total and counts one share, a refused share adds nothing; the task callback "
+         "fires exactly for accepted shares forwarded to the destination the miner is assigned to, with the same amount; the amount "
+         "is the difficulty captured with the job the share solves; each (we accepted?, pool rejected?) combination increments "
+         "exactly its cell for the miner and for the destination the share went to; a successful switch (also to the current "
+         "destination) installs exactly the callback it was given. " + SESSION_TIE,
+    technique="Lean 4 per-event theorems over a session model + differential correspondence with the real Proxy under synctest virtual time + trace monitor",
+    design="5/C04", engine="proxy")
+
 NOT_YET = {}
 
 ALL = ["C%02d" % i for i in range(1, 21)]
